@@ -60,8 +60,10 @@ type osLockFile struct {
 }
 
 func (f *osLockFile) Unlock() error {
+	verifYield(f.path, "unlock.remove")
 	if err := os.Remove(f.path); err != nil {
 		return err
 	}
+	verifYield(f.path, "unlock.close")
 	return f.Close()
 }
